@@ -2,6 +2,7 @@
 package xh
 
 import (
+	"time"
 	"context"
 	"encoding/binary"
 	"errors"
@@ -54,6 +55,13 @@ type Store struct {
 	OnDie  func(inc, atCall int)
 	// CloseErr: Close of every client reports this error (a storage extension that fails to close)
 	CloseErr error
+	// holdAt > 0: call number holdAt of the current incarnation is HELD at its entry until every other goroutine has
+	// gone quiet (no further storage call for a while), then it is applied and the incarnation dies right after it.
+	// With code that makes its storage calls under the queue mutex this is the same as a death at the entry of call
+	// holdAt+1; with code that releases the mutex around a storage call it lets everything else overtake that call.
+	holdAt  int
+	held    bool
+	holding bool
 }
 
 func NewStore() *Store { return &Store{data: map[string][]byte{}} }
@@ -66,8 +74,15 @@ func (s *Store) NewIncarnation(dieAt int) int {
 	s.dead = false
 	s.calls = 0
 	s.dieAt = dieAt
+	s.holdAt, s.held = 0, false
 	return s.inc
 }
+
+// SetHold arms the hold for the current incarnation (see holdAt).
+func (s *Store) SetHold(k int) { s.mu.Lock(); s.holdAt, s.held = k, false; s.mu.Unlock() }
+
+// Holding reports whether a call is being held right now.
+func (s *Store) Holding() bool { s.mu.Lock(); defer s.mu.Unlock(); return s.holding }
 
 func (s *Store) Kill() {
 	s.mu.Lock()
@@ -178,6 +193,43 @@ func (s *Store) apply(inc int, ops []*storage.Operation) error {
 		return ErrDead
 	}
 	defer s.mu.Unlock()
+	dieAfter := false
+	if s.holdAt > 0 && s.calls == s.holdAt && !s.held {
+		s.held, s.holding = true, true
+		myN := s.calls
+		start, quietSince, seen := time.Now(), time.Now(), s.calls
+		for {
+			s.mu.Unlock()
+			time.Sleep(3 * time.Millisecond)
+			s.mu.Lock()
+			if inc != s.inc || s.dead {
+				s.holding = false
+				if s.BlockDead {
+					s.mu.Unlock()
+					select {}
+				}
+				return ErrDead
+			}
+			if s.calls != seen {
+				seen, quietSince = s.calls, time.Now()
+			}
+			if time.Since(quietSince) > 40*time.Millisecond || time.Since(start) > 600*time.Millisecond {
+				break
+			}
+		}
+		s.holding = false
+		dieAfter = true
+		defer func() {
+			// the incarnation dies right after the held call has taken effect
+			if !s.dead {
+				s.dead = true
+				if s.OnDie != nil {
+					s.OnDie(s.inc, myN)
+				}
+			}
+		}()
+	}
+	_ = dieAfter
 	recs := make([]OpRec, 0, len(ops))
 	for _, op := range ops {
 		switch op.Type {
